@@ -24,7 +24,7 @@ use crate::props::Prop;
 pub const PROP: Prop = Prop {
     id: "C09",
     level: "exploration",
-    rule: "macro invocations generated from the documented syntax: model trees of depth <= 5 over integers within i32 (and i64/u64-suffixed), floats (short decimal forms with 1-5 significant digits and decimal exponents -12..17, spelled as Rust prints them with {:?} - exponent notation below 1e-4 and from 1e16 - and with explicit exponents 2.5e-3 / 2.5E-3), strings, Rust character literals, #t #f #nil, (), identifier symbols, #\"...\" symbols, punctuation-only symbols (+ - * / < = > ! $ % & ^ ~ ? @ <= >= -> ... ++ .++ :!) at every position, keywords as #:name, :name and #:\"...\", proper lists, dotted lists whose tail is an atom, a list or a dotted list (flattening), vectors, and unquotes ,x / ,(expr) of several Rust types in element and dotted-tail position, including expressions that draw from a counter shared by the invocation (the k-th in source order must contribute k); every invocation is compiled (rustc) and compared at run time with lexpr::from_str of the equivalent text and with a model value built from plain constructors; non-trivial = the invocation contains a list, vector, punctuation symbol or unquote; distinct by the invocation's token text",
+    rule: "macro invocations generated from the documented syntax: model trees of depth <= 5 over integers within i32 (and i64/u64-suffixed), floats (short decimal forms with 1-5 significant digits and decimal exponents -12..17, spelled as Rust prints them with {:?} - exponent notation below 1e-4 and from 1e16 - and with explicit exponents 2.5e-3 / 2.5E-3), strings, Rust character literals, #t #f #nil, (), identifier symbols, #\"...\" symbols, punctuation-only symbols (+ - * / < = > ! $ % & ^ ~ ? @ <= >= -> ... ++ .++ :!) at every position, keywords as #:name, :name and #:\"...\", proper lists, dotted lists whose tail is an atom, a list or a dotted list (flattening), vectors, and unquotes ,x / ,(expr) of several Rust types in element and dotted-tail position, including expressions that draw from a counter shared by the invocation (the k-th in source order must contribute k); every third invocation with unquotes is written through a local macro_rules! macro whose parameters are expr fragments; every invocation is compiled (rustc) and compared at run time with lexpr::from_str of the equivalent text and with a model value built from plain constructors; non-trivial = the invocation contains a list, vector, punctuation symbol or unquote; distinct by the invocation's token text",
     assumptions: &[
         "excluded by construction and counted: a '-' symbol directly followed by a literal and a ':' symbol directly followed by an identifier or literal (Rust tokenisation cannot tell them from a negative number / a keyword), names needing escapes inside #\"...\"",
         "floats are restricted to short decimal forms so that the default (fast-float) parser reads the text exactly",
@@ -58,6 +58,46 @@ pub enum M {
     Vector(Vec<M>),
     /// unquoted Rust expression: (expression source, expected value)
     Unquote(String, MV, bool),
+}
+
+/// Every third invocation that contains unquotes is written through a local
+/// `macro_rules!` whose parameters are `expr` fragments: rustc hands such a
+/// fragment to `sexp!` as one invisible group, and it still has to contribute
+/// `Value::from(expr)` as a whole.
+fn via_macro_rules(m: &M) -> bool {
+    // (not for trees with punctuation symbols: a macro_rules! transcriber
+    // re-spaces punctuation - `-->` arrives as `-` `->` - and `$` is its own
+    // meta character; that is rustc, not sexp!)
+    fn has_punct(m: &M) -> bool {
+        match m {
+            M::Punct(_) => true,
+            M::List(xs, t) => xs.iter().any(has_punct) || t.as_ref().map_or(false, |t| has_punct(t)),
+            M::Vector(xs) => xs.iter().any(has_punct),
+            _ => false,
+        }
+    }
+    m.has_unquote() && !has_punct(m) && !m.macro_src().contains('$') && digest_of(&m.macro_src()) % 3 == 0
+}
+
+/// The source inside `sexp!( ... )` with every unquoted expression replaced by
+/// a macro parameter `$eK`; the expressions are collected in `args`.
+fn macro_src_params(m: &M, args: &mut Vec<String>) -> String {
+    match m {
+        M::List(xs, tail) => {
+            let mut parts: Vec<String> = xs.iter().map(|x| macro_src_params(x, args)).collect();
+            if let Some(t) = tail {
+                parts.push(".".into());
+                parts.push(macro_src_params(t, args));
+            }
+            format!("({})", parts.join(" "))
+        }
+        M::Vector(xs) => format!("#({})", xs.iter().map(|x| macro_src_params(x, args)).collect::<Vec<_>>().join(" ")),
+        M::Unquote(src, _, _) => {
+            args.push(src.clone());
+            format!(",$e{}", args.len() - 1)
+        }
+        other => other.macro_src(),
+    }
 }
 
 fn rust_str(s: &str) -> String {
@@ -473,7 +513,15 @@ fn write_crate(cases: &[(usize, &M)]) -> Vec<usize> {
             format!("Some({})", rust_str(&lexpr::to_string(&model.to_value()).unwrap_or_default()))
         };
         // one invocation per source line
-        src.push_str(&format!("    {{ let var_val = var_val.clone(); let ctr = std::cell::Cell::new(0u64); let _ = &ctr; check({}, sexp!({}), {}, {}); }}\n", id, m.macro_src(), text, rust_expr(&model)));
+        let invocation = if via_macro_rules(m) {
+            let mut args = Vec::new();
+            let body = macro_src_params(m, &mut args);
+            let params: Vec<String> = (0..args.len()).map(|k| format!("$e{}:expr", k)).collect();
+            format!("{{ macro_rules! via {{ ({}) => {{ sexp!({}) }}; }} via!({}) }}", params.join(", "), body, args.join(", "))
+        } else {
+            format!("sexp!({})", m.macro_src())
+        };
+        src.push_str(&format!("    {{ let var_val = var_val.clone(); let ctr = std::cell::Cell::new(0u64); let _ = &ctr; check({}, {}, {}, {}); }}\n", id, invocation, text, rust_expr(&model)));
         line_to_case.push(*id);
     }
     src.push_str("}\n");
@@ -630,8 +678,8 @@ fn judge_case(m: &M, r: &Result<(), (String, String)>) -> CaseResult {
             Ok(Eval::new(m.nontrivial(), digest_of(&m.macro_src())).classes(&cs))
         }
         Err((kind, msg)) => Err(Failure::new(
-            format!("C09 {} construct={}", kind, construct_of(m, msg)),
-            format!("sexp!({}): {}", clip(&m.macro_src(), 200), clip(msg, 400)),
+            format!("C09 {} construct={}{}", kind, construct_of(m, msg), if via_macro_rules(m) { " via=macro_rules-expr-fragments" } else { "" }),
+            format!("sexp!({}){}: {}", clip(&m.macro_src(), 200), if via_macro_rules(m) { " (unquoted expressions passed as expr fragments of a macro_rules! macro)" } else { "" }, clip(msg, 400)),
             json!({"tree": m}),
         )),
     }
